@@ -75,10 +75,10 @@ class Kit:
 class Env:
     """boot + model + oracle + pools, shared by most property modules"""
 
-    def __init__(self, ctx, need_oracle=True, modules="all"):
+    def __init__(self, ctx, need_oracle=True, modules="all", order=None):
         self.ctx = ctx
         try:
-            self.b = B.boot(modules=modules)
+            self.b = B.boot(modules=modules, order=order)
         except Exception as e:
             raise core.Inconclusive(f"the tree under test does not import: {type(e).__name__}: {e}")
         if self.b.errors:
